@@ -613,6 +613,8 @@ def mr_label(e):
         return "WriteOp(%d,%s)" % (e["c"], e["x"])
     if ev == "URead":
         return "URead(%d,%s)" % (e["c"], e["form"])
+    if ev == "GetStale":
+        return "GetStale(%s,%s)" % (e["u"], e["f"])
     return ev
 
 
@@ -658,13 +660,13 @@ def mr_features(pred, lines, idx, start, detail):
     e = lines[idx]
     post, pre = e["post"], lines[idx - 1]["post"] if idx > start else e["post"]
     f = {"predicate": pred, "ev": e["ev"], "mode": lines[start].get("mode")}
-    made = post["made"]
+    made = min(post["made"], len(post["q"]), len(post["closed"]))    # a tree that creates more connections than the configuration has room for
     if pred == "GoneAfterRemove":
         shape = "other"
         unl = [c for c in range(1, made + 1) if c not in listed_conns(post)]
         bound = [(c, k) for k, c in post["amap"].items() if c in unl]
         delivered = [d["c"] for d in e.get("rx", [])] if e["ev"] == "DispatchOp" else \
-            [c for c in range(1, made + 1) if len(post["q"][c - 1]) > len(pre["q"][c - 1])]
+            [c for c in range(1, min(made, len(post["q"]), len(pre["q"])) + 1) if len(post["q"][c - 1]) > len(pre["q"][c - 1])]
         if any(post["closed"][c - 1] and post["q"][c - 1] for c in range(1, made + 1)):
             shape = "closed connection holds datagrams"
         elif bound:
@@ -727,7 +729,7 @@ def mr_consts(c):
     return ["Ufrags = " + tla_set(c["ufrags"]), "Fams = " + tla_set(c["fams"]), "Srcs = " + tla_set(c["srcs"]), "Kinds = " + tla_set(c["kinds"]),
             "Writers = " + tla_set(c["writers"]), "MaxConns = %d" % c["maxconns"], "MaxGrams = %d" % c.get("grams", 1),
             "MaxWrites = %d" % c.get("writes", 1), "MaxRemoves = %d" % c.get("removes", 1), "MaxCloses = %d" % c.get("closes", 1),
-            "MaxReads = %d" % c.get("reads", 0),
+            "MaxReads = %d" % c.get("reads", 0), "MaxStales = %d" % c.get("stales", 0),
             "StaleWrites = %s" % ("TRUE" if c.get("stale") else "FALSE"), "MuxClose = %s" % ("TRUE" if c.get("muxclose") else "FALSE"),
             "SetupFirst = %s" % ("TRUE" if c.get("setupfirst") else "FALSE"), "MaxOps = %d" % c.get("ops", 0),
             "Defects = " + tla_set(c.get("defects", []))]
@@ -759,7 +761,7 @@ def mr_config(work, binary, verdict, stats, seed, key, c, timeout=900):
 
 
 # generous bounds for directed schedules (the trace spec's guards must not get in the way of a schedule suggestion)
-MR_FREE = {"grams": 8, "writes": 8, "removes": 8, "closes": 8, "reads": 8, "stale": True, "muxclose": True, "setupfirst": False, "ops": 99, "defects": []}
+MR_FREE = {"grams": 8, "writes": 8, "removes": 8, "closes": 8, "reads": 8, "stales": 8, "stale": True, "muxclose": True, "setupfirst": False, "ops": 99, "defects": []}
 
 
 def mr_cex(work, binary, verdict, stats, seed, key, c, invariant="GoneAfterRemove", suffix=()):
@@ -815,7 +817,7 @@ def mr_run(work, binary, verdict, stats, tier, seed):
     conc_a = {"mode": "conc", "ufrags": ["u1", "u2"], "fams": ["4"], "srcs": ["s1"], "kinds": ["data", "u1"], "writers": ["w1", "w2"],
               "maxconns": 2, "grams": 1 if quick else 2, "writes": 2, "removes": 1, "closes": 0, "stale": True, "setupfirst": True}
     conc_b = {"mode": "conc", "ufrags": ["u1"], "fams": ["4"], "srcs": ["s1", "m1"] if not quick else ["s1"], "kinds": ["data", "u1"],
-              "writers": ["w1", "w2"], "maxconns": 1, "grams": 2, "writes": 2, "removes": 1, "closes": 1, "stale": True, "setupfirst": True}
+              "writers": ["w1", "w2"], "maxconns": 1, "grams": 2, "writes": 2, "removes": 1, "closes": 1, "stales": 1, "stale": True, "setupfirst": True}
     # the users read while the dispatcher works: a backlog, reads with a buffer that is too short, the holders going round the pool
     conc_c = {"mode": "conc", "ufrags": ["u1", "u2"], "fams": ["4"], "srcs": ["s1"], "kinds": ["u1", "u2"], "writers": ["w1"],
               "maxconns": 2, "grams": 3 if quick else 4, "writes": 0, "removes": 0, "closes": 0, "reads": 2 if quick else 3, "stale": False,
